@@ -19,7 +19,7 @@ union of their atoms are equal.  The table size is 2**n, callers keep n small
 from __future__ import annotations
 
 from typing import (
-    Any, Callable, Dict, Hashable, Iterable, List, Optional, Sequence, Tuple,
+    Any, Callable, Hashable, Iterable, List, Optional, Sequence, Tuple,
 )
 
 Tree = tuple
